@@ -97,6 +97,33 @@ def gen_cases(seed, tier):
         if dom["info"]["kind"] == "product":
             target = "interior"
         add("comp", dom, target=target, mode=mode, nsmall=nsm)
+    for i in range(4 if quick else 40):
+        # dependent product whose second factor has two variables while the first factor depends on one of them only:
+        # the joint law is uniform on the whole set, i.e. the second-factor values are weighted by the slice volume
+        if i % 2 == 0:
+            for _try in range(200):
+                dom = gen_geo.gen_domain(rng, max_depth=1, k=int(rng.choice([0, 0, 1])), allow=("product",), dim=int(rng.choice([1, 2])))
+                nd = geo.ref(dom["spec"])
+                if dom["spec"]["b"].get("op") == "product" and nd.dependent():
+                    break
+        else:
+            # strong dependence: the size of the first factor grows from 0.3 to 1.3 units over the range of s
+            lo, hi = float(rng.uniform(-1, 0)), float(rng.uniform(0.5, 2))
+            size = float(rng.uniform(0.5, 1.5))
+            grow = {"a": [0.3 * size - size * lo / (hi - lo)], "terms": [{"var": "s", "col": 0, "kind": "lin", "coef": [size / (hi - lo)]}]}
+            c = rng.uniform(-2, 2, 2)
+            if rng.random() < 0.5:
+                a = {"prim": "circle", "var": "x", "center": [float(c[0]), float(c[1])], "radius": grow}
+            else:
+                a = {"prim": "interval", "var": "x", "lo": float(c[0]),
+                     "hi": {"a": [float(c[0]) + grow["a"][0]], "terms": grow["terms"]}}
+            bs = {"prim": "interval", "var": "s", "lo": lo, "hi": hi}
+            br = {"prim": "interval", "var": "r", "lo": float(rng.uniform(-1, 0)), "hi": float(rng.uniform(0.5, 2))}
+            spec = {"op": "product", "a": a, "b": {"op": "product", "a": bs, "b": br} if rng.random() < 0.5 else {"op": "product", "a": br, "b": bs}}
+            dom = {"spec": spec, "rows": {}, "k": 0,
+                   "info": {"kind": "product", "dim": 2 if a["prim"] == "circle" else 1, "dep": False, "relations": [], "desc": geo.ref(spec).desc()}}
+        dom["info"]["desc"] += "~two_var_factor"
+        add("comp", dom, target="interior", mode="small" if i % 4 == 3 else "big", nsmall=10)
     for i in range(6 if quick else 60):
         # disjoint union whose mixing ratio |A| / (|A| + |B|) differs strongly between the parameter rows
         c = rng.uniform(-2, 2, 2)
@@ -408,7 +435,8 @@ def _uniform_test(case, D, node, Pp, env, k, N, seed, rng):
         if uc is not None:
             cnt, pr = gof_cells(*uc)
             stat, dof, p = stats.chi2_gof(cnt, pr)
-            out.append((i, p, "gof chi2=%.1f dof=%d N=%d cells=%s" % (stat, dof, len(X), uc[1]), len(X)))
+            out.append((i, p, "gof chi2=%.1f dof=%d N=%d cells=%s" % (stat, dof, len(X), uc[1]), len(X),
+                        math.sqrt(max(0.0, stat - dof) / len(X))))
         else:
             L = max(1.0, float(np.abs(X).max()))
             if target == "interior":
@@ -420,10 +448,11 @@ def _uniform_test(case, D, node, Pp, env, k, N, seed, rng):
             # widen the partition box a little: float32 samples on the hull must not fall out of it
             w = 0.01 * np.maximum(box[1::2] - box[0::2], 1e-9)
             box = np.stack([box[0::2] - w, box[1::2] + w], 1).reshape(-1)
-            g = {1: 24, 2: 8, 3: 4}[d] if target == "interior" else {1: 24, 2: 10, 3: 5}[d]
+            g = {1: 24, 2: 8, 3: 4, 4: 3, 5: 2}[d] if target == "interior" else {1: 24, 2: 10, 3: 5, 4: 3, 5: 2}[d]
             c1, c2 = stats.box_cells(X, box, g), stats.box_cells(R, box, g)
             stat, dof, p = stats.chi2_two_sample(c1, c2)
-            out.append((i, p, "two-sample chi2=%.1f dof=%d N=%d ref=%d grid=%d^%d" % (stat, dof, len(X), len(R), g, d), len(X)))
+            out.append((i, p, "two-sample chi2=%.1f dof=%d N=%d ref=%d grid=%d^%d" % (stat, dof, len(X), len(R), g, d), len(X),
+                        math.sqrt(max(0.0, stat - dof) * (len(X) + len(R)) / (len(X) * len(R)))))
     return out
 
 
@@ -445,7 +474,7 @@ def run_uniform(case, res):
                                 type(e).__name__, exc_site(e), str(e)[:300]), exc=type(e).__name__, site=exc_site(e), **mech))
         return
     res["counters"]["tests"] = res["counters"].get("tests", 0) + len(first)
-    for (i, p, desc, n) in first:
+    for (i, p, desc, n, eff) in first:
         res["judged"] += n
     fails = [t for t in first if t[1] < stats.ALPHA]
     if fails:
@@ -454,9 +483,12 @@ def run_uniform(case, res):
         if case["mode"] == "small":
             c2["N"] = case["N"] * 4
         second = _uniform_test(c2, D, node, Pp, env, k, case["N"] * 4, case["seed"] + 7919, np.random.default_rng(case["seed"] + 7919))
-        bad2 = {i: (p, desc) for (i, p, desc, n) in second if p < stats.ALPHA}
-        for (i, p, desc, n) in fails:
+        bad2 = {i: (p, desc, eff) for (i, p, desc, n, eff) in second if p < stats.ALPHA}
+        for (i, p, desc, n, eff) in fails:
             if i in bad2:
+                # effect size w = sqrt((chi2 - dof) / N) of the replication: distinguishes a small residual bias from a
+                # missing weighting
+                mech["effect"] = round(bad2[i][2], 3)
                 res["viol"].append(viol("not_uniform", "%s of %s (mode %s%s, parameter row %d): distribution differs from the uniform law: %s "
                                         "p=%.2g; replication on a 4x sample: %s p=%.2g" % (case["target"], info["desc"], case["mode"],
                                                                                          " n=%d" % case["nsmall"] if case["mode"] == "small" else "",
